@@ -569,3 +569,36 @@ func searchNeedsOrder(c *Ctx, R, fname string, d *declInfo) {
 		return true
 	})
 }
+
+// diffKeysAreEncodings: the list helper recognises "the same element" by the element's equality
+// encoding. Keying its presence index by a digest of that encoding makes two different elements
+// the same element whenever the digests collide (a 32-bit digest collides among a few ten
+// thousand values), and their difference is not reported.
+func diffKeysAreEncodings(c *Ctx) {
+	const R = "diff-keys-are-encodings"
+	c.rule(R, "no function reachable from diffList inside pkg/sbom (the encoders excepted) calls into hash/* or crypto/*: elements are matched by their full equality encoding, never by a digest of it")
+	ds := pkgFilter(c.reachDecls(R, "sbom.diffList", "sbom.(*Node).Diff"), "sbom.")
+	n := 0
+	for _, d := range ds {
+		if strings.Contains(d.name, "flatString") || strings.HasSuffix(d.name, ".Checksum") {
+			continue
+		}
+		n++
+		bad := ""
+		var pos token.Pos
+		for _, cs := range callsIn(d.pkg, d.fd.Body) {
+			if cs.callee.Pkg() == nil {
+				continue
+			}
+			pp := cs.callee.Pkg().Path()
+			if pp == "hash" || strings.HasPrefix(pp, "hash/") || strings.HasPrefix(pp, "crypto/") {
+				bad, pos = cs.callee.FullName(), cs.call.Pos()
+			}
+		}
+		c.check(bad == "", R, d.name, c.P.Pos(pos), "elements are matched by their encoding",
+			fmt.Sprintf("%s matches elements through %s: a digest identifies an element only up to collisions, and two different suppliers or references with colliding digests are reported as no difference", d.name, bad))
+	}
+	if n == 0 {
+		c.undecided(R, "sbom.diffList", "-", "no function in scope")
+	}
+}
